@@ -470,7 +470,11 @@ def run(pm, ctx):
     if gather:
         comp = gather[0].value
         tg = [norm_src(e) for e in comp.generators[0].target.elts] if isinstance(comp.generators[0].target, ast.Tuple) else []
-        if len(tg) == 2 and norm_src(comp.elt).startswith(f"X[{tg[1]}][{tg[0]}]"):
+        import re as _re
+        m_ = _re.match(r"^([A-Za-z_]\w*)\[" + _re.escape(tg[1]) + r"\]\[" + _re.escape(tg[0]) + r"\]", str(norm_src(comp.elt))) if len(tg) == 2 else None
+        # the list indexed by the component: any local other than the labels (its element type - one array of n draws per component - is judged by the
+        # typed subscripts above)
+        if m_ is not None and m_.group(1) not in ("y", tg[0], tg[1]):
             ctx.ok("C20-c", "draw_gmm: X[k][i] for (i, k) in enumerate(y)")
         else:
             ctx.violation("C20-c", u.relpath, "draw_gmm", norm_src(gather[0])[:160], "row i is not taken from the draw list of component y[i]", line=gather[0].lineno,
